@@ -410,7 +410,7 @@ pub fn run_c12(args: &Args) {
         "C12",
         "modelcheck c12",
         args,
-        "for every single-operator case that runs: the operator's declared output-type rule (read through the graph hook and evaluated on the actual input types) and the type the public API reports for the output after shape/type inference (Model::node_info(..).dtype()) are compared with the element type of the value the run really returns. non-trivial = the output type differs from the type of the first input (type-changing operator or attribute setting); distinct by (operator, attribute setting, input types)",
+        "for every single-operator case that runs: the operator's declared output-type rule (read through the graph hook and evaluated on the actual input types) and the type the public API reports for the output after shape/type inference (Model::node_info(..).dtype()) and the type map computed by the graph-level inference driver (hook; also for operators whose earlier outputs are left unconnected) are compared with the element type of the value the run really returns, with borrowed and with owned (in-place) inputs. non-trivial = the output type differs from the type of the first input (type-changing operator or attribute setting); distinct by (operator, attribute setting, input types)",
     );
     rep.max_samples = 12;
     let cases = replay_or_pack(args);
@@ -475,6 +475,48 @@ pub fn run_c12(args: &Args) {
                                     }
                                 }
                             }
+                        }
+                    }
+                }
+            }
+            // In-place route: the same request with owned inputs, which the executor may
+            // hand to run_in_place; the produced type must be the same.
+            {
+                let owned: Vec<(NodeId, ValueOrView)> = inputs.iter().filter_map(|t| node_id(&model, &t.name).map(|id| (id, ValueOrView::from(t.to_value())))).collect();
+                if owned.len() == inputs.len() {
+                    if let Ok(got2) = run_prepared(&model, owned, &c.outputs, None) {
+                        rep.count("owned_input_runs");
+                        for (a, b) in got.iter().zip(&got2) {
+                            if a.dtype != b.dtype {
+                                rep.violation(
+                                    format!("C12|{}|{}|in_place_type|borrowed={}|owned={}", op, c.variant["attrs"], a.dtype, b.dtype),
+                                    format!("{} ({}) output {} has type {} when the inputs are borrowed but {} when they are owned (in-place path)", op, c.variant["attrs"], a.name, a.dtype, b.dtype),
+                                    json!({"case": small_case_json(c), "input_set": k, "output": a.name}),
+                                );
+                            }
+                        }
+                    }
+                }
+            }
+            // Inference route: the type map the graph-level inference driver computes
+            // (what the optimiser consumes), incl. nodes with unconnected outputs.
+            #[cfg(rten_verif)]
+            {
+                use rten::verif::{infer_shapes, InferShapeOptions};
+                let g = rten::verif::model_graph(&model);
+                if let Ok(Ok(res)) = catch(|| infer_shapes(g, InferShapeOptions { strict: false, ..Default::default() }).map_err(|e| e.to_string())) {
+                    for out in &got {
+                        let Some(id) = node_id(&model, &out.name) else { continue };
+                        let Some(vt) = res.types.get(&id) else { continue };
+                        rep.count("inferred_types_checked");
+                        let declared = format!("{}", vt);
+                        let actual = rten_name(&out.dtype);
+                        if !type_eq(&declared, &actual) {
+                            rep.violation(
+                                format!("C12|{}|{}|inferred_type|inferred={}|actual={}|omitted={}", op, c.variant["attrs"], declared, actual, c.variant["omitted_outputs"]),
+                                format!("{} ({}) output {}: type inference says {} but the run returns {} (unconnected outputs: {})", op, c.variant["attrs"], out.name, declared, actual, c.variant["omitted_outputs"]),
+                                json!({"case": small_case_json(c), "input_set": k, "output": out.name}),
+                            );
                         }
                     }
                 }
